@@ -171,23 +171,33 @@ func (b *combineBuffer) combine() error {
 
 	dimensions := p.Dimensions().ToSet()
 	set := make([]edge.FieldsTagsTimeSetter, l)
+	used := make([]bool, l)
 	return b.c.Do(len(b.points), l, func(indices []int) error {
-		valid := true
-		for s := 0; s < l; s++ {
-			found := false
+		// Find an assignment of the points of this combination to the expressions.
+		// Taking the first matching point for each expression in turn is not enough:
+		// it can use up the only point that a later expression matches, which made
+		// the result depend on the arrival order of the points.
+		for i := range used {
+			used[i] = false
+		}
+		var assign func(s int) bool
+		assign = func(s int) bool {
+			if s == l {
+				return true
+			}
 			for i := range indices {
-				if matches[s][indices[i]] {
+				if !used[i] && matches[s][indices[i]] {
+					used[i] = true
 					set[s] = b.points[indices[i]]
-					indices = append(indices[0:i], indices[i+1:]...)
-					found = true
-					break
+					if assign(s + 1) {
+						return true
+					}
+					used[i] = false
 				}
 			}
-			if !found {
-				valid = false
-				break
-			}
+			return false
 		}
+		valid := assign(0)
 		if valid {
 			fields, tags, t := b.merge(set, dimensions)
 
